@@ -78,6 +78,10 @@ func c18Tree() (sut.Tree, *rulesCase) {
 	t["regex-assembly/932100-chain007.ra"] = "lz007x\n"
 	t["regex-assembly/932100-chain0255.ra"] = "lz0255x\n"
 	t["regex-assembly/932100-chain0256.ra"] = "lz0256x\n"
+	// leading zeros that read differently as octal numbers (8, 9 are no octal digits; 010 is eight in base 8)
+	t["regex-assembly/932100-chain010.ra"] = "lz010x\n"
+	t["regex-assembly/932100-chain08.ra"] = "lz08x\n"
+	t["regex-assembly/932100-chain0100.ra"] = "lz0100x\n"
 	t["regex-assembly/932100-chain256.ra"] = "k256x\n"
 	t["regex-assembly/932100-chain65536.ra"] = "k65536x\n"
 	t["regex-assembly/93210.ra"] = "five\n"
@@ -406,17 +410,20 @@ func c18All(env *core.Env, c *c18Case) core.Verdict {
 				}
 			}
 			key := line2key[i]
-			if want, ok := tree["regex-assembly/"+key+".ra"]; ok && op != strings.TrimSpace(want) {
-				// files with leading zeros resolve to the same rule; either content is a legitimate writer
-				alt := false
-				for p, content := range tree {
-					if ok2, _, id, k := c18Parse(strings.TrimPrefix(p, "regex-assembly/")); ok2 && ruleKey(id, k) == key && strings.TrimSpace(content) == op {
-						alt = true
-					}
+			// whatever was written has to be the content of an assembly file that resolves to this rule and offset
+			// (files with leading zeros resolve to the same rule; either content is a legitimate writer)
+			alt := false
+			for p, content := range tree {
+				name := strings.TrimPrefix(p, "regex-assembly/")
+				if name == p || strings.Contains(name, "/") {
+					continue
 				}
-				if !alt {
-					return core.Viol("all-resolves-wrongly", "update --all wrote %q into %s, which no assembly file of that rule and offset contains", op, key)
+				if ok2, _, id, k := c18Parse(name); ok2 && ruleKey(id, k) == key && strings.TrimSpace(content) == op {
+					alt = true
 				}
+			}
+			if !alt {
+				return core.Viol("all-resolves-wrongly", "update --all wrote %q into %s, which no assembly file of that rule and offset contains", op, key)
 			}
 		}
 		if cmd == "update" && r.Exit == 0 {
@@ -488,7 +495,7 @@ func c18Cases(env *core.Env, rng *rand.Rand) []core.Case {
 	args = append(args, "932100", "932100.ra", "932101", "932101-chain1", "932101-chain2.ra", "932101-chain3", "932110", "932110-chain1", "932120",
 		"932100-chain256", "932100-chain257", "932100-chain511", "932100-chain512", "932100-chain65535", "932100-chain65536", "932100-chain65537", "932100-chain4294967296",
 		"932100-chain18446744073709551615", "932100-chain18446744073709551616", "932100-chain18446744073709551617", "932100-chain99999999999999999999",
-		"932100-chain007", "932100-chain0255", "932100-chain0256", "932100-chain00000000000000000000001",
+		"932100-chain007", "932100-chain0255", "932100-chain0256", "932100-chain00000000000000000000001", "932100-chain010", "932100-chain08", "932100-chain0100.ra", "932100-chain09",
 		"93210", "9321000", "93210a", "932100x", "x932100", "932100.raa", "932100.ra.ra", "932100-chain1.raa", "932100-chain1.ra.ra", " 932100", "932100 ", "+932100", "-932100",
 		"932100-chain-1", "932100-chain+1", "932100-chain1-chain2", "932100-CHAIN1", "932100-chain", "932100-chain.ra", "932100-chain1.RA", "９３２１００", "932100\n", "932100\n.ra",
 		"./932100", "../regex-assembly/932100.ra", "932100/", "932100.ra/", "932100-chain1x", "932100-chain0x10", "932100-chain1e2", "932100_chain1", "932100-chain 1", "",
